@@ -97,6 +97,46 @@ def planted(kind, mode):
         defvjp(f, lambda ans, x: lambda g: g * dcube(x))
         defjvp(f, lambda g, ans, x: g * dcube(x))
         return f, (lambda rng: onp.array([rng.uniform(0.5, 1.2) for _ in range(3)])), None
+    if kind in ("cross-mode-factor", "cross-mode-sign", "ok-cross-mode"):
+        # the helper the VJP body calls has a right VJP but a wrong JVP, the helper the JVP body calls a right JVP
+        # but a wrong VJP: only forward-over-reverse and reverse-over-forward see it, so a check_grads run with
+        # BOTH modes at order 2 must reject it (and order 1 must accept)
+        m = {"cross-mode-factor": 1.5, "cross-mode-sign": -1.0, "ok-cross-mode": 1.0}[kind]
+
+        @primitive
+        def dr(x):
+            return 3.0 * x * x
+        defvjp(dr, lambda ans, x: lambda g: g * 6.0 * x)
+        defjvp(dr, lambda g, ans, x: g * 6.0 * x * m)
+
+        @primitive
+        def df(x):
+            return 3.0 * x * x
+        defvjp(df, lambda ans, x: lambda g: g * 6.0 * x * m)
+        defjvp(df, lambda g, ans, x: g * 6.0 * x)
+
+        @primitive
+        def f(x):
+            return x * x * x
+        defvjp(f, lambda ans, x: lambda g: g * dr(x))
+        defjvp(f, lambda g, ans, x: g * df(x))
+        return f, (lambda rng: onp.array([rng.uniform(0.5, 1.2) for _ in range(3)])), "both"
+    if kind in ("nan-entry", "nan-scalar"):
+        # a rule that returns a non-finite number at a regular point
+        @primitive
+        def f(x):
+            return anp.sin(x) * 2.0 + x
+        true = lambda x: 2.0 * anp.cos(x) + 1.0  # noqa: E731
+
+        def poison(v):
+            v = onp.array(v, dtype=float, copy=True)
+            v.reshape(-1)[0] = onp.nan
+            return v if v.shape else float(v)
+        defvjp(f, lambda ans, x: lambda g: poison(g * true(x)) if mode == "rev" else g * true(x))
+        defjvp(f, lambda g, ans, x: poison(g * true(x)) if mode == "fwd" else g * true(x))
+        if kind == "nan-scalar":
+            return f, (lambda rng: rng.uniform(0.3, 1.2)), None
+        return f, (lambda rng: onp.array([rng.uniform(0.3, 1.2) for _ in range(3)])), None
     raise ValueError(kind)
 
 
@@ -133,20 +173,36 @@ def main():
             res = bool(d < 1e-6)
         dist("close" if res else "not-close")
         out["pairs"].append({"a": frac(a), "b": frac(b), "impl": res})
+    # non-finite operands: never close (decided on the implementation; floats outside the rational model)
+    for a, b in ((onp.nan, 1.0), (1.0, onp.nan), (onp.nan, onp.nan), (onp.inf, 1.0), (1.0, -onp.inf), (onp.inf, onp.inf),
+                 (onp.nan, 0.0), (0.0, onp.nan), (onp.inf, -onp.inf)):
+        out["oracle_n"] += 1
+        out["oracle_keys"].append("scalar_close-nonfinite/%r/%r" % (a, b))
+        try:
+            r = bool(scalar_close(onp.float64(a), onp.float64(b)))
+        except Exception:
+            r = False
+        if r:
+            out["oracle_bad"].append({"oracle": "scalar_close", "a": repr(a), "b": repr(b),
+                                      "what": "scalar_close(%r, %r) is True: a non-finite derivative would be accepted" % (a, b),
+                                      "site": {"oracle": "scalar_close-nonfinite"}})
     # ---- (B) check_grads on correct and planted-defect primitives ----
     trials = cfg["trials"]
     for kind in ("ok-scalar", "ok-matrix", "ok-reduction", "ok-complex", "factor", "sign", "transpose", "entry",
                  "dropped-reduction", "complex-conj", "ok-second-order", "second-order-factor", "second-order-sign",
-                 "second-order-zero"):
+                 "second-order-zero", "ok-cross-mode", "cross-mode-factor", "cross-mode-sign", "nan-entry", "nan-scalar"):
         for mode in ("rev", "fwd"):
             for order in (1, 2):
-                f, point, _ = planted(kind, mode)
+                f, point, both = planted(kind, mode)
+                if both == "both" and mode == "fwd":
+                    continue                      # cross-mode kinds are run once, with both modes requested
+                modes_req = ["fwd", "rev"] if both == "both" else [mode]
                 passes = 0
                 for t in range(trials):
                     onp.random.seed((cfg["seed"] * 1000 + t) % (2 ** 31))
                     x = point(rng)
                     try:
-                        check_grads(f, modes=[mode], order=order)(x)
+                        check_grads(f, modes=modes_req, order=order)(x)
                         passes += 1
                     except AssertionError:
                         pass
@@ -156,8 +212,8 @@ def main():
                         break
                 out["oracle_n"] += trials
                 out["oracle_keys"].append("%s/%s/order%d" % (kind, mode, order))
-                dist("%s:%s:order%d" % ("correct" if (kind.startswith("ok") or (kind.startswith("second-order") and order == 1)) else "defect", mode, order))
-                correct_here = kind.startswith("ok") or (kind.startswith("second-order") and order == 1)
+                dist("%s:%s:order%d" % ("correct" if (kind.startswith("ok") or ((kind.startswith("second-order") or kind.startswith("cross-mode")) and order == 1)) else "defect", "+".join(modes_req), order))
+                correct_here = kind.startswith("ok") or ((kind.startswith("second-order") or kind.startswith("cross-mode")) and order == 1)
                 if correct_here and passes < trials:
                     out["oracle_bad"].append({"oracle": "check_grads", "kind": kind, "mode": mode, "order": order,
                                               "what": "a correct rule was rejected in %d of %d runs" % (trials - passes, trials),
